@@ -457,6 +457,12 @@ def _gen_delaunay_points(rng, tier):
             side = int(np.ceil(np.sqrt(n)))
             pts = np.array([[i, j] for i in range(side) for j in range(side)], dtype=float)[:n]
             pts = pts + 0.1 * nrng.normal(size=pts.shape)
+        elif k % 10 == 1:
+            # a hub inside a convex rim: a vertex with 9..14 Delaunay edges (random clouds of a dozen points rarely exceed 7)
+            m = rng.randint(9, 14)
+            ang = np.linspace(0.0, 2.0 * np.pi, m, endpoint=False) + 0.05 * nrng.normal(size=m)
+            rad = 1.0 + 0.03 * nrng.normal(size=m)
+            pts = np.vstack([[0.05 * nrng.normal(), 0.05 * nrng.normal()], np.stack([rad * np.sin(ang), rad * np.cos(ang)], axis=1)])
         else:
             pts = nrng.normal(size=(n, 2)) * np.array([1.0, rng.choice([0.3, 1.0, 3.0])])
         yield {"mesh_points": pts}
